@@ -5,7 +5,7 @@
    A schedule is any list of worker ids: each entry gives that worker one turn (one atomic action, or
    nothing when it is blocked on the lock or has returned).  All theorems are for EVERY schedule. *)
 From Coq Require Import ZArith List Lia Bool Arith Permutation.
-From PR Require Import Model.Sched Proofs.C15_inv Proofs.C15_term Proofs.C15_array.
+From PR Require Import Model.Sched Proofs.C15_inv Proofs.C15_term Proofs.C15_array Proofs.C15_hist.
 Import ListNotations.
 Open Scope Z_scope.
 
@@ -140,6 +140,50 @@ Example C15_mp_ex :
   pcs (run c sched) 0%nat = PDone /\ pcs (run c sched) 1%nat = PDone /\
   result_array (fun i => 10 * i) (-1) 7 (wdone (run c sched)) = [0; 10; 20; 30; 40; 50; 60].
 Proof. vm_compute. repeat split; reflexivity. Qed.
+
+(* histories of calls on one cKDTree_MP / Proj_MP object: as long as every call runs the protocol on a FRESH
+   scheduler (init) for its own number of rows, every call of the history (any sizes, any interleavings, any
+   row functions) returns the single-process result *)
+Theorem C15_fresh_scheduler_per_call : forall (V : Type) (d : V) (calls : list (call V)),
+  Forall call_ok calls -> map (call_mp d) calls = map call_sp calls.
+Proof. intros V. exact (@fresh_per_call V). Qed.
+Print Assumptions C15_fresh_scheduler_per_call.
+Example C15_history_ex :
+  let k1 : call Z := (mk_cfg 3 2 None Guided 64, 2%nat, concat (repeat [0; 1]%nat 31), fun i => 10 * i) in
+  let k2 : call Z := (mk_cfg 3 2 None Guided 64, 2%nat, concat (repeat [1; 1; 0]%nat 31), fun i => i + 7) in
+  call_ok k1 /\ call_ok k2 /\ map (call_mp (-1)) [k1; k2] = [[0; 10; 20]; [7; 8; 9]].
+Proof.
+  cbn zeta. assert (H : forall l, In l [[0; 1]; [1; 1; 0]]%nat -> workers_below 2 (concat (repeat l 31))).
+  { intros l Hl. apply Forall_forall. intros w Hw. apply in_concat in Hw. destruct Hw as (l' & Hl' & Hw).
+    apply repeat_spec in Hl'. subst l'. destruct Hl as [<-|[<-|[]]]; cbn in Hw; lia. }
+  split; [|split].
+  - split; [unfold wf; cbn; lia|]. split; [lia|]. split; [apply H; cbn; auto|].
+    intros w Hw. destruct w as [|[|w]]; [vm_compute; reflexivity..|lia].
+  - split; [unfold wf; cbn; lia|]. split; [lia|]. split; [apply H; cbn; auto|].
+    intros w Hw. destruct w as [|[|w]]; [vm_compute; reflexivity..|lia].
+  - vm_compute. reflexivity.
+Qed.
+
+(* the hypothesis "fresh" is needed: workers that iterate the Scheduler left behind by a finished call (counter
+   exhausted) receive no slice and write nothing, under any interleaving ... *)
+Theorem C15_reused_scheduler_hands_out_nothing : forall c s sched, ndata s = 0 ->
+  slices (run_from c (recycle s) sched) = [] /\ wdone (run_from c (recycle s) sched) = [].
+Proof. exact reused_hands_out_nothing. Qed.
+Print Assumptions C15_reused_scheduler_hands_out_nothing.
+(* ... so a second call of the same size on a cached scheduler returns the untouched (fill) array *)
+Theorem C15_reused_scheduler_refuted : exists c nw sched1 sched2 (f : Z -> Z) d,
+  wf c /\ all_done nw (run c sched1) /\ all_done nw (run_from c (recycle (run c sched1)) sched2) /\
+  result_array f d (n c) (wdone (run c sched1)) = single_process f (n c) /\
+  result_array f d (n c) (wdone (run_from c (recycle (run c sched1)) sched2)) = repeat d (Z.to_nat (n c)) /\
+  result_array f d (n c) (wdone (run_from c (recycle (run c sched1)) sched2)) <> single_process f (n c).
+Proof.
+  exists (mk_cfg 3 1 None Static 64), 1%nat, (repeat 0%nat 11), (repeat 0%nat 4), (fun i => i + 1), 0.
+  split; [unfold wf; cbn; lia|]. split; [|split].
+  - intros w Hw. assert (w = 0%nat) as -> by lia. vm_compute. reflexivity.
+  - intros w Hw. assert (w = 0%nat) as -> by lia. vm_compute. reflexivity.
+  - vm_compute. split; [reflexivity|]. split; [reflexivity|discriminate].
+Qed.
+Print Assumptions C15_reused_scheduler_refuted.
 
 (* the guard n < 2^(bits-1) is needed: with 32-bit counters (ctypes.c_int) and n = 2^32 + 3 the single worker
    receives slice(0, 3) and returns; items 3 .. n-1 are never handed out *)
